@@ -303,4 +303,19 @@ theorem start_rotation_gravity (g : Vec3 ℝ) (R0 Rk : Quat ℝ) (h0 : R0.normSq
     Quat.act_conj_act Rk hk]
 
 
+/-! ### the carried covariance is the returned one (any init_state) -/
+
+theorem call_st_cov_gen (cfg : Cfg ℝ) (st : State ℝ) (init : Option (Init ℝ)) (fr : Nat → Frame ℝ) (F : Nat)
+    (hr : cfg.reset = false) (hp : cfg.propCov = true) (c : M9 ℝ) (hc : (call cfg st init fr F).cov = some c) :
+    (call cfg st init fr F).st.cov = c := by
+  cases init with
+  | none =>
+    simp only [call, hr, hp, Bool.false_eq_true, if_false, if_true, Option.some.injEq] at hc ⊢
+    exact hc
+  | some i =>
+    obtain ⟨p, r, v, cv, rj⟩ := i
+    cases cv <;> cases rj <;>
+      (simp only [call, hr, hp, Bool.false_eq_true, if_false, if_true, Option.some.injEq] at hc ⊢; exact hc)
+
+
 end PP.Imu
